@@ -1,2 +1,3 @@
 pub mod points;
 pub mod world;
+pub mod history;
